@@ -12,13 +12,13 @@ from .guards import outcomes, conditions, path_variants, normalize_bool_cond, co
 from .veclen import VecLen, VEC_REMOVE, VEC_POP, VEC_PUSH, VEC_NEW, INDEX
 from .facts import callee_path
 
-TRY_BYTES = "<ciborium::Value as util::ValueTryAs>::try_as_bytes"
-TRY_NONEMPTY = "<ciborium::Value as util::ValueTryAs>::try_as_nonempty_bytes"
-TRY_ARRAY = "<ciborium::Value as util::ValueTryAs>::try_as_array"
-TRY_ARRAY_CONVERT = "<ciborium::Value as util::ValueTryAs>::try_as_array_then_convert"
-TRY_INTEGER = "<ciborium::Value as util::ValueTryAs>::try_as_integer"
-TRY_STRING = "<ciborium::Value as util::ValueTryAs>::try_as_string"
-TRY_MAP = "<ciborium::Value as util::ValueTryAs>::try_as_map"
+TRY_BYTES = "<ciborium::value::Value as util::ValueTryAs>::try_as_bytes"
+TRY_NONEMPTY = "<ciborium::value::Value as util::ValueTryAs>::try_as_nonempty_bytes"
+TRY_ARRAY = "<ciborium::value::Value as util::ValueTryAs>::try_as_array"
+TRY_ARRAY_CONVERT = "<ciborium::value::Value as util::ValueTryAs>::try_as_array_then_convert"
+TRY_INTEGER = "<ciborium::value::Value as util::ValueTryAs>::try_as_integer"
+TRY_STRING = "<ciborium::value::Value as util::ValueTryAs>::try_as_string"
+TRY_MAP = "<ciborium::value::Value as util::ValueTryAs>::try_as_map"
 FROM_BSTR = ("header::ProtectedHeader::from_cbor_bstr", "header::ProtectedHeader::from_cbor_bstr_depth")
 HDR_FROM = ("<header::Header as common::AsCborValue>::from_cbor_value", "header::Header::from_cbor_value_depth")
 SIG_FROM = ("<sign::CoseSignature as common::AsCborValue>::from_cbor_value", "sign::CoseSignature::from_cbor_value_depth")
@@ -258,7 +258,7 @@ def _converter_type(prog, conv):
     return "?"
 
 
-def accepted_arities(fn, vec_ty="alloc::vec::Vec<ciborium::Value>", probe=range(0, 10)):
+def accepted_arities(fn, vec_ty="alloc::vec::Vec<ciborium::value::Value>", probe=range(0, 10)):
     """lengths n of the input array for which an Ok exit is reachable (vec-length dataflow seeded
     with an exact length; infeasible edges are pruned by the analysis)"""
     pv = Prov(fn)
@@ -303,7 +303,7 @@ def returned_collection(fn, pv, variant):
     o = oks[0]
     st = fn.blocks[o["bb"]]["stmts"][o["idx"]]
     d = find_def_stmt(pv, st["rv"]["ops"][0], o["bb"], o["idx"])
-    if not d or d[0] != "stmt" or d[1]["k"] != "aggr" or d[1].get("adt") != "ciborium::Value" or d[1].get("variant") != variant:
+    if not d or d[0] != "stmt" or d[1]["k"] != "aggr" or d[1].get("adt") != "ciborium::value::Value" or d[1].get("variant") != variant:
         return None
     op = d[1]["ops"][0]
     if op["k"] not in ("copy", "move") or op["place"]["p"]:
@@ -421,7 +421,7 @@ def emit_kind(prog, fn, pv, e):
             if fld and r[2][1] == ("const", 0):
                 full = _full_self(fn, c)
                 return "first-of<%s>" % type_of_decoder(full.replace("::to_cbor_value", "::from_cbor_value")), fld
-    if t[0] == "aggr" and t[1] == "ciborium::Value":
+    if t[0] == "aggr" and t[1] == "ciborium::value::Value":
         inner = t[3][0][1] if t[3] else None
         sv = self_value(inner) if inner else None
         if t[2] == "Bytes" and sv:
@@ -447,16 +447,16 @@ def emit_kind(prog, fn, pv, e):
         n = got.get(frozenset(["None"]))
         if s and n and len(alist) == 2:
             fld = s[1]
-            if s[0] == ("aggr", "ciborium::Value", "Bytes", (("0", ("field", ("variant", ("field", ("param", 0), fld), "Some"), "0")),)) \
-                    and n[0] == ("aggr", "ciborium::Value", "Null", ()):
+            if s[0] == ("aggr", "ciborium::value::Value", "Bytes", (("0", ("field", ("variant", ("field", ("param", 0), fld), "Some"), "0")),)) \
+                    and n[0] == ("aggr", "ciborium::value::Value", "Null", ()):
                 return "bstr/nil", fld
         if len(alist) == 3:
             # nonce
             terms = sorted(show(x[0]) for x in alist)
             fld = f
             want = sorted([
-                show(("aggr", "ciborium::Value", "Null", ())),
-                show(("aggr", "ciborium::Value", "Bytes", (("0", ("field", ("variant", ("field", ("variant", ("field", ("param", 0), fld), "Some"), "0"), "Bytes"), "0")),))),
+                show(("aggr", "ciborium::value::Value", "Null", ())),
+                show(("aggr", "ciborium::value::Value", "Bytes", (("0", ("field", ("variant", ("field", ("variant", ("field", ("param", 0), fld), "Some"), "0"), "Bytes"), "0")),))),
             ])
             ints = [x[0] for x in alist if is_call(x[0], "core::convert::From::from")]
             if fld and len(ints) == 1 and ints[0][2] == (("field", ("variant", ("field", ("variant", ("field", ("param", 0), fld), "Some"), "0"), "Integer"), "0"),) \
@@ -488,7 +488,7 @@ def guard_desc(prog, fn, pv, e):
         cv = cond_variants(prog, pv, c)
         if cv:
             subj, names = cv
-            if is_call(subj, "core::ops::Try::branch"):
+            if is_call(subj, "core::ops::try_trait::Try::branch"):
                 continue  # the success edge of a `?`
             fld = field_of_self(subj)
             if names == {"Some"}:
@@ -535,7 +535,7 @@ def array_passed_to_writer(fn, pv):
         return None, "cannot find the value handed to into_writer"
     l, rbb, ridx = r
     d = find_def_stmt(pv, {"k": "copy", "place": {"l": l, "p": []}}, rbb, ridx)
-    if not d or d[0] != "stmt" or d[1]["k"] != "aggr" or d[1].get("adt") != "ciborium::Value" or d[1].get("variant") != "Array":
+    if not d or d[0] != "stmt" or d[1]["k"] != "aggr" or d[1].get("adt") != "ciborium::value::Value" or d[1].get("variant") != "Array":
         return None, "the serialised value is not a Value::Array literal"
     op = d[1]["ops"][0]
     if op["k"] not in ("copy", "move") or op["place"]["p"]:
